@@ -668,6 +668,14 @@ fn primitive<'s>(input: &mut &'s str) -> PResult<Option<BoundSet>, SemverParseEr
     Parser::map(
         (operation, preceded(space0, partial_version)),
         |parsed| match parsed {
+            // A wildcard major: nothing is above or below every version, and
+            // every version is equal to, at least or at most some version.
+            (GreaterThan | LessThan, Partial { major: None, .. }) => {
+                BoundSet::at_most(Predicate::Excluding((0, 0, 0, 0).into()))
+            }
+            (_, Partial { major: None, .. }) => {
+                BoundSet::at_least(Predicate::Including((0, 0, 0).into()))
+            }
             (GreaterThanEquals, partial) => {
                 BoundSet::at_least(Predicate::Including(partial.into()))
             }
@@ -920,6 +928,9 @@ fn tilde_gt<'s>(input: &mut &'s str) -> PResult<Option<&'s str>, SemverParseErro
 
 fn tilde<'s>(input: &mut &'s str) -> PResult<Option<BoundSet>, SemverParseError<&'s str>> {
     Parser::map((tilde_gt, partial_version), |parsed| match parsed {
+        (_, Partial { major: None, .. }) => {
+            BoundSet::at_least(Predicate::Including((0, 0, 0).into()))
+        }
         (
             Some(_gt),
             Partial {
@@ -1004,6 +1015,9 @@ fn caret<'s>(input: &mut &'s str) -> PResult<Option<BoundSet>, SemverParseError<
     Parser::map(
         preceded((literal("^"), space0), partial_version),
         |parsed| match parsed {
+            Partial { major: None, .. } => {
+                BoundSet::at_least(Predicate::Including((0, 0, 0).into()))
+            }
             Partial {
                 major: Some(0),
                 minor: None,
